@@ -928,7 +928,10 @@ def sp_dict(tier):
     return name, seeds, expand
 
 
-SPACE_BUILDERS = [sp_shapes, sp_layout, sp_units, sp_access, sp_set1, sp_set2, sp_regen, sp_override, sp_dict]
+# sp_override (RDSystem(state=dict) / set_default_state(dict)) is NOT claimed: the statement speaks of systems built
+# without an explicit state and of regeneration; the override path is documented but broken on the pinned tree
+# (rdsystem.py: `.len()` / `is_array`), which is noted in DESIGN.md as seen-but-outside-the-statement.
+SPACE_BUILDERS = [sp_shapes, sp_layout, sp_units, sp_access, sp_set1, sp_set2, sp_regen, sp_dict]
 CHUNK = {0: 400, 1: 60, 2: 60, 3: 2, 4: 400, 5: 300, 6: 60, 7: 40, 8: 60}
 
 _SPACES = None
